@@ -6,10 +6,12 @@ package core
 import (
 	"bytes"
 	"fmt"
+	"os"
 	"runtime"
 	"sort"
 	"strconv"
 	"strings"
+	"syscall"
 	"time"
 )
 
@@ -153,6 +155,7 @@ func (l *Log) EvDev(kind string, a ...int64) {
 // Ev records an event.
 func (l *Log) Ev(kind string, a ...int64) {
 	l.Seq++
+	tick()
 	h := uint64(0xcbf29ce484222325)
 	for i := 0; i < len(kind); i++ {
 		h = (h ^ uint64(kind[i])) * 0x100000001b3
@@ -251,6 +254,36 @@ func (c *Ctx) Viol(class, facts, format string, a ...interface{}) *Violation {
 
 // ---------------------------------------------------------------- executor
 
+// progressTick counts simulator events of this process. It is a plain variable touched only in
+// //go:norace functions: the watcher below reads it from another goroutine, and neither an atomic
+// nor a lock may be used here, because either would order the tasks of a C20 run for the race
+// detector (sched's baton has the same constraint).
+var progressTick uint64
+
+//go:norace
+func tick() { progressTick++ }
+
+//go:norace
+func ticks() uint64 { return progressTick }
+
+// cpuNow is the CPU time this process has used (user + system). A run that spends hangCPU of it
+// inside one library call without producing a single simulator event is not slow, it is not
+// coming back: CPU time, unlike wall time, does not grow because the machine is busy.
+func cpuNow() time.Duration {
+	var ru syscall.Rusage
+	if syscall.Getrusage(syscall.RUSAGE_SELF, &ru) != nil {
+		return 0
+	}
+	return time.Duration(ru.Utime.Nano() + ru.Stime.Nano())
+}
+
+var hangCPU = func() time.Duration {
+	if v, err := strconv.Atoi(os.Getenv("VERIF_HANG_CPU_MS")); err == nil && v > 0 {
+		return time.Duration(v) * time.Millisecond
+	}
+	return 20 * time.Second
+}()
+
 const libPrefix = "github.com/tdewolff/parse/v2"
 
 // RunFunc is one simulated execution.
@@ -281,6 +314,7 @@ func Exec(prop string, t *Tape, trace bool, f RunFunc) (res Result) {
 	wait := time.NewTimer(deadlockGrace) // wall clock only decides WHEN we look; a deadlock is permanent
 	defer wait.Stop()
 	same, last := 0, uint64(0)
+	lastTick, cpuAtTick := ticks(), cpuNow()
 	for {
 		select {
 		case <-done:
@@ -288,6 +322,15 @@ func Exec(prop string, t *Tape, trace bool, f RunFunc) (res Result) {
 		case <-wait.C:
 		}
 		blocked, h, body := blockedStack(gid)
+		if tk := ticks(); tk != lastTick || blocked {
+			lastTick, cpuAtTick = tk, cpuNow()
+		} else if used := cpuNow() - cpuAtTick; used >= hangCPU {
+			// no simulator event for hangCPU of CPU time: where is the run goroutine?
+			if fn, where := spinningIn(gid); fn != "" {
+				return Result{Ctx: ctx, V: &Violation{Class: prop + "/hang", Facts: "in=" + shortFn(fn), Msg: "the call never returns: no simulator event (operation, device call) during " + used.Round(time.Second).String() + " of CPU time spent inside the library, at " + where}} // (the context belongs to the spinning goroutine: not read here)
+			}
+			lastTick, cpuAtTick = ticks(), cpuNow() // harness code or a scheduler goroutine: the worker watchdog's business
+		}
 		if blocked && h == last {
 			same++
 		} else {
@@ -392,6 +435,46 @@ func blockedStack(g uint64) (bool, uint64, []byte) {
 	return false, 0, nil
 }
 
+// spinningIn reports the innermost frame of goroutine g among library and harness frames when g is
+// running (or runnable) and that frame is library code.
+func spinningIn(g uint64) (string, string) {
+	n := runtime.Stack(watchBuf, true)
+	for n >= len(watchBuf) {
+		watchBuf = make([]byte, 2*len(watchBuf))
+		n = runtime.Stack(watchBuf, true)
+	}
+	all := watchBuf[:n]
+	var hb [40]byte
+	head := append(strconv.AppendUint(append(hb[:0], "goroutine "...), g, 10), " ["...)
+	for off := 0; off < len(all); {
+		blk := all[off:]
+		if e := bytes.Index(blk, []byte("\n\n")); e >= 0 {
+			blk = blk[:e]
+			off += e + 2
+		} else {
+			off = len(all)
+		}
+		if !bytes.HasPrefix(blk, head) {
+			continue
+		}
+		st := blk[len(head):]
+		if !bytes.HasPrefix(st, []byte("running")) && !bytes.HasPrefix(st, []byte("runnable")) {
+			return "", ""
+		}
+		lines := strings.Split(string(blk), "\n")
+		for i, l := range lines {
+			if strings.HasPrefix(l, "verif/sim/") || strings.HasPrefix(l, "main.") {
+				return "", ""
+			}
+			if strings.HasPrefix(l, libPrefix) {
+				return libFrame(strings.Join(lines[i:], "\n"))
+			}
+		}
+		return "", ""
+	}
+	return "", ""
+}
+
 // libFrame returns the innermost library function in a stack text.
 func libFrame(st string) (string, string) {
 	lines := strings.Split(st, "\n")
@@ -413,6 +496,12 @@ func libFrame(st string) (string, string) {
 		}
 	}
 	return "", ""
+}
+
+// NeverReturns tells whether a violation class is a verdict about an execution that does not come
+// back (a lock nothing releases, a loop nothing ends): the process that established it is spoilt.
+func NeverReturns(class string) bool {
+	return strings.HasSuffix(class, "/deadlock") || strings.HasSuffix(class, "/hang")
 }
 
 func shortFn(fn string) string {
